@@ -408,11 +408,13 @@ impl PublishBuilder {
         if tx.is_canceled() {
             Err(SendPacketError::StreamingCancelled)
         } else {
+            // payload can be streamed only if publish packet is written,
+            // otherwise `tx` is dropped and streaming is cancelled
             let rx =
-                self.shared.wait_publish_response(idx, AckType::Publish, self.packet, None);
+                self.shared.wait_publish_response(idx, AckType::Publish, self.packet, None)?;
             let _ = tx.send(());
 
-            rx?.await.map(|_| ()).map_err(|_| SendPacketError::Disconnected)
+            rx.await.map(|_| ()).map_err(|_| SendPacketError::Disconnected)
         }
     }
 }
